@@ -81,6 +81,16 @@ Example hdf5_conforms_empty_axes :
 Proof. split; [|split]; apply wf_stateb_sound; reflexivity. Qed.
 Print Assumptions hdf5_conforms_empty_axes.
 
+(* the hypotheses are decidable: the boolean the correspondence run evaluates on every case is sound *)
+Theorem in_domainb_sound : forall st genby date, in_domainb st genby date && type_in_vocabb st = true ->
+  wf_state st /\ meta_ok st /\ type_in_vocab st.
+Proof.
+  intros st genby date H. apply andb_prop in H. destruct H as [H1 H2].
+  destruct (Hdf5Proofs.in_domainb_sound st genby date H1) as (A & B & _).
+  exact (conj A (conj B (type_in_vocabb_sound st H2))).
+Qed.
+Print Assumptions in_domainb_sound.
+
 (* [more] sort_indices keeps the matrix and sorts every segment *)
 Theorem sort_indices_ok : forall r, wf_cs r ->
   wf_cs (sort_indices r) /\ sorted_cs (sort_indices r) /\ dense_of (sort_indices r) = dense_of r
